@@ -366,6 +366,38 @@ func (fc *FnCtx) heapSym(st *State, key, sort string) string {
 
 // havocAll forgets everything about the heap except stable keys.
 func (fc *FnCtx) havocAll(st *State) {
+	// Locals whose address never leaves the function (go/ssa: Alloc.Heap == false; only direct
+	// loads and stores) cannot be reached by any callee: they keep their value.
+	type kept struct {
+		p PtrV
+		t types.Type
+		v Val
+	}
+	var keep []kept
+	for sv, v := range fc.vals {
+		a, ok := sv.(*ssa.Alloc)
+		if !ok || a.Heap {
+			continue
+		}
+		p, ok := v.(PtrV)
+		if !ok || len(p.Path) != 0 || (p.Kind != PObj && p.Kind != PArr) {
+			continue
+		}
+		t := a.Type().Underlying().(*types.Pointer).Elem()
+		func() {
+			defer func() { recover() }()
+			keep = append(keep, kept{p, t, fc.load(st, p, t)})
+		}()
+	}
+	sort.Slice(keep, func(i, j int) bool { return keep[i].p.Ref < keep[j].p.Ref })
+	defer func() {
+		for _, k := range keep {
+			func() {
+				defer func() { recover() }()
+				fc.store(st, k.p, k.t, k.v)
+			}()
+		}
+	}()
 	fc.nbase++
 	na := fc.smt.declare("alloc", "Int")
 	fc.assume(st, app(">=", na, st.alloc))
